@@ -23,7 +23,8 @@ RULE = ("Values: text of 0-12 characters over {a b e-acute non-BMP space tab \" 
         ", # = newline { } % \\ [ ] : ;}, 1-3 options per file, default or "
         "named section, through TransportIniFileStore and (smaller budget) "
         "GlobalStack / LocationStack / BranchStack, re-read by a store object "
-        "that never saw the value. Locations: 0-6 sections whose names are "
+        "that never saw the value; also with a later session that loads the "
+        "file, sets another option and saves before the read. Locations: 0-6 sections whose names are "
         "absolute paths or file:// URLs of 0-3 components over {a, ab, b, *, "
         "a*, ?, [ab], [!a]}, optional no-name section, options opt / "
         "opt:policy=appendpath / ignore_parents, values with {relpath} / "
@@ -31,8 +32,9 @@ RULE = ("Values: text of 0-12 characters over {a b e-acute non-BMP space tab \" 
         "resolved through Stack([LocationMatcher]) on a saved file and through "
         "LocationStack on locations.conf. Excluded by construction and "
         "witnessed by their own kinds (open findings): values with matching "
-        "outer quotes that contain both quote kinds, values containing a line "
-        "break other than LF, the norecurse policy. Non-trivial: value "
+        "outer quotes that contain both quote kinds, single-line values with "
+        "both quote kinds in a file that is loaded and saved again, values "
+        "containing a line break other than LF, the norecurse policy. Non-trivial: value "
         "containing a quote, comma, '#', newline or outer blank; location with "
         ">= 2 matching sections of different depth, an ignore_parents barrier "
         "or a policy/expansion applied to a non-empty remainder. Distinct by "
@@ -52,7 +54,7 @@ LEVEL_NOTE = ("Trusts configobj for what a syntactically valid file is; "
               "segment parameters (,branch=) and StartingPathMatcher (unused "
               "outside tests, string-prefix semantics by design) are not "
               "covered.")
-REGISTERED = False
+REGISTERED = True
 NONTRIVIAL_FLOOR = {"quick": 1000, "thorough": 20000}
 
 QUOTES = "\"'"
@@ -69,12 +71,21 @@ def in_quote_class(v):
             '"' in v and "'" in v and "\n" not in v and "#" not in v)
 
 
+def in_both_quotes_class(v):
+    """Single-line value with both quote kinds and no '#': stored with the
+    store's own triple quotes only, which configobj strips on load; a later
+    load + save of the same file rewrites it bare (open finding)."""
+    return '"' in v and "'" in v and "\n" not in v and "#" not in v
+
+
 def has_line_break(v):
     return any(c in LINE_BREAKS for c in v)
 
 
-def _values(max_size=12):
+def _values(max_size=12, rewrite_safe=False):
     def fix(v):
+        if rewrite_safe and in_both_quotes_class(v):
+            v = v.replace('"', "a")     # excluded by construction
         if in_quote_class(v):
             v = v + "a"       # excluded by construction (open finding)
         return v
@@ -88,14 +99,21 @@ _sections = st.sampled_from([None, None, "DEFAULT", "sec", "/a/b", "a b"])
 
 
 @st.composite
-def gen_values(draw, stacks=False):
+def gen_values(draw, stacks=False, later=False):
     n = draw(st.integers(1, 3))
     names = draw(st.lists(_names, min_size=n, max_size=n, unique=True))
-    case = {"opts": [[nm, draw(_values())] for nm in names]}
+    case = {}
     if stacks:
         case["stack"] = draw(st.sampled_from(["global", "location", "branch"]))
     else:
         case["section"] = draw(_sections)
+    # BranchStack saves after every set(): each later set is a load + save of
+    # a file that already holds the earlier values
+    safe = later or case.get("stack") == "branch"
+    case["opts"] = [[nm, draw(_values(rewrite_safe=safe))] for nm in names]
+    if later:
+        case["later"] = [["vf_later", draw(_values(max_size=4,
+                                                   rewrite_safe=True))]]
     return case
 
 
@@ -132,12 +150,28 @@ def _roundtrip(case, make_writer, make_reader, where):
     except _refusals() as e:
         return rejected("store-refuses-value:" + type(e).__name__,
                         label=_label_value([v for _, v in opts]))
-    reader = make_reader()
-    for name, v in opts:
-        got = reader.get(name, expand=False)
+    if case.get("later"):
+        # a later session loads the file, sets something else and saves
+        stack2, save2 = make_writer()
+        for name, v in case["later"]:
+            stack2.set(name, v)
+        save2()
+        where += "-after-later-save"
+    try:
+        reader = make_reader()
+        gots = [reader.get(name, expand=False) for name, _ in opts]
+    except _config().ParseConfigError as e:
+        if case.get("later") and any(in_both_quotes_class(v)
+                                     for _, v in opts):
+            check(False, "C49/both-quote-kinds-value-damaged-by-later-save",
+                  {"case": case, "error": str(e)[:300]})
+        raise
+    for (name, v), got in zip(opts, gots):
         if got != v:
             sig = "C49/%s-value-altered" % where
-            if in_quote_class(v):
+            if case.get("later") and in_both_quotes_class(v):
+                sig = "C49/both-quote-kinds-value-damaged-by-later-save"
+            elif in_quote_class(v):
                 sig = "C49/matching-outer-quotes-with-both-quote-kinds-stripped"
             elif has_line_break(v):
                 sig = "C49/value-with-non-LF-line-break-altered"
@@ -252,6 +286,19 @@ def gen_quote_class(draw):
     i = draw(st.integers(0, len(inner)))
     v = q + inner[:i] + other + inner[i:] + q
     return {"opts": [["vf_opt", v]], "section": draw(_sections)}
+
+
+@st.composite
+def gen_both_quotes_later(draw):
+    inner = draw(st.text(alphabet=st.sampled_from(list("ab ,=\"'{é")),
+                         max_size=6))
+    i = draw(st.integers(0, len(inner)))
+    j = draw(st.integers(0, len(inner)))
+    a, b = draw(st.sampled_from(["'\"", "\"'"]))
+    lo, hi = min(i, j), max(i, j)
+    v = inner[:lo] + a + inner[lo:hi] + b + inner[hi:]
+    return {"opts": [["vf_opt", v]], "section": draw(_sections),
+            "later": [["vf_later", "1"]]}
 
 
 @st.composite
@@ -546,6 +593,12 @@ def kinds(tier):
         Kind("location", run_location, strategy=gen_location(),
              examples={"quick": 2500, "thorough": 100000},
              teardown=teardown_user_config),
+        Kind("value-survives-later-save", run_values,
+             strategy=gen_values(later=True),
+             examples={"quick": 1500, "thorough": 50000}),
+        Kind("both-quote-kinds-later-save", run_values,
+             strategy=gen_both_quotes_later(),
+             examples={"quick": 60, "thorough": 1000}),
         Kind("f22-residual-quote-class", run_values,
              strategy=gen_quote_class(),
              examples={"quick": 60, "thorough": 1000}),
